@@ -590,7 +590,8 @@ class ExcAnalysis:
             esc("OSError", "open(%s)" % (show(A[0], 2) if A else ""), "environment")
         elif name == "next":
             self.sites_examined += 1
-            esc("StopIteration", "next(%s)" % (show(A[0], 2) if A else ""))
+            if len(A) < 2:  # next(it, default) never raises StopIteration
+                esc("StopIteration", "next(%s)" % (show(A[0], 2) if A else ""))
         elif name == "struct.unpack":
             self.sites_examined += 1
             esc("struct.error", "struct.unpack(%s)" % ", ".join(show(a, 2) for a in A))
